@@ -155,9 +155,13 @@ def apply(g, op, idm: IdMap, other=None, swap=False, iter_kind="list"):
             g.delete_bond_stereo((a2, b2))
         elif n in ("set_atom_stereo_change", "set_bond_stereo_change"):
             kw = {}
+            made = {}         # equal descriptors given for two roles are passed as ONE object
             for key, f in (("broken", "db"), ("fleeting", "dl"), ("formed", "df")):
                 if op[f][0] != "none":
-                    kw[key] = mk_descr(op[f], idm)
+                    sig = json.dumps(op[f])
+                    if sig not in made:
+                        made[sig] = mk_descr(op[f], idm)
+                    kw[key] = made[sig]
             getattr(g, n)(**kw)
         elif n == "del_atom_stereo_change":
             if op["ch"]:
